@@ -11,6 +11,7 @@ import (
 	"github.com/zenon-network/go-zenon/common"
 	"github.com/zenon-network/go-zenon/common/types"
 	"github.com/zenon-network/go-zenon/verifier"
+	"github.com/zenon-network/go-zenon/vm"
 	"github.com/zenon-network/go-zenon/vm/constants"
 	"github.com/zenon-network/go-zenon/vm/embedded/definition"
 )
@@ -36,20 +37,20 @@ type sendRec struct {
 }
 
 type ledgerRun struct {
-	c        *Ctx
-	n        *Node
-	id       int
-	sends    map[types.Hash]*sendRec
-	sendList []types.Hash
-	addrs    map[types.Address]bool
-	tokens   map[types.ZenonTokenStandard]bool
+	c               *Ctx
+	n               *Node
+	id              int
+	sends           map[types.Hash]*sendRec
+	sendList        []types.Hash
+	addrs           map[types.Address]bool
+	tokens          map[types.ZenonTokenStandard]bool
 	toContractOrder map[types.Address][]types.Hash // confirmation order of sends per contract
 	contractRecvd   map[types.Address]int          // number of receives seen per contract
-	pool     *argPool
-	failed   bool
-	preGate  bool
-	gateBroken bool
-	undo     map[uint64][]func() // per momentum height: how to take its blocks out of the harness log again (rollback)
+	pool            *argPool
+	failed          bool
+	preGate         bool
+	gateBroken      bool
+	undo            map[uint64][]func() // per momentum height: how to take its blocks out of the harness log again (rollback)
 }
 
 func (r *ledgerRun) fail(format string, a ...interface{}) {
@@ -645,6 +646,45 @@ func ledgerHistory(c *Ctx, id int) {
 			case y < 11 && len(already) > 0: // a send that was received before (whatever its amount and token), by its addressee
 				rec = already[c.R.Intn(len(already))]
 				who = rec.to
+			case y < 15 && len(toEmbedded) > 0:
+				// a contract receive for ANY confirmed send to a contract, built by the node's own generator as a peer would (contract
+				// blocks are unsigned): the head of the inbox is honest, an already answered send is a replay, a later entry is out of
+				// order — only the head may pass (the FIFO and receive-once monitors judge what gets confirmed)
+				rec = toEmbedded[c.R.Intn(len(toEmbedded))]
+				send, _ := n.Chain().GetFrontierMomentumStore().GetAccountBlockByHash(rec.hash)
+				if send == nil {
+					continue
+				}
+				var ce *vm.ContractExecution
+				var gerr error
+				if p := safely(func() { ce, gerr = n.Sup.GenerateAutoReceive(send) }); p != "" {
+					c.Hit("forged-contract-receive-panic")
+					continue
+				}
+				if gerr != nil || ce == nil || ce.Transaction == nil {
+					c.Hit("forged-contract-receive-refused")
+					if gerr != nil {
+						kind := "unanswered-entry"
+						if len(rec.received) > 0 {
+							kind = "replay"
+						}
+						c.Hit("forged-contract-receive-refused-" + kind + "-" + strings.ReplaceAll(firstLine(gerr.Error()), " ", "-"))
+					}
+					continue
+				}
+				if len(rec.received) > 0 {
+					r.fail("C04: a contract receive for send %s to %s, which that contract has already received (at %s/%d), was generated and verified again (replay)", h8(rec.hash), addrName(rec.to), addrName(rec.received[0].Address), rec.received[0].Height)
+					return
+				}
+				ins := n.Chain().AcquireInsert("zvh contract receive")
+				ierr := n.Chain().AddAccountBlockTransaction(ins, ce.Transaction)
+				ins.Unlock()
+				if ierr == nil {
+					c.Hit("forged-contract-receive-pooled")
+				} else {
+					c.Hit("forged-contract-receive-not-inserted")
+				}
+				continue
 			}
 			if keyOf(who) == nil {
 				continue
